@@ -271,6 +271,17 @@ namespace vh
             return out;
         }
         if (v.is<runtime::t_code>()) { return "{" + render_set(v.data<types::d_code>()->value()) + "}"; }
+        if (v.is<runtime::t_hashmap>())
+        {
+            // unordered container: canonical order = sorted by rendered entry
+            std::vector<std::string> entries;
+            for (auto& kv : v.data<types::d_hashmap>()->map()) { entries.push_back(render_value(kv.first, depth + 1) + "=" + render_value(kv.second, depth + 1)); }
+            std::sort(entries.begin(), entries.end());
+            std::string out = "#{";
+            for (size_t i = 0; i < entries.size(); i++) { if (i) { out.push_back(','); } out += entries[i]; }
+            out.push_back('}');
+            return out;
+        }
         return "<" + std::string(v.type().to_string()) + ">";
     }
     inline std::string render_instruction(const sqf::runtime::instruction& in)
